@@ -2,7 +2,7 @@
 
 import itertools
 
-from .. import projects, refmodel
+from .. import hist, projects, refmodel
 from ..dirx import describe, fresh_world, session
 from ..explore import explore
 from ..runner import Acc, h8
@@ -13,7 +13,9 @@ RULE = (
     "outputs of earlier steps, declared or amended, defined by the root plan or a sub-plan) crossed "
     "with all target sets over their outputs, a directory target, and invalid targets; fresh "
     "builds, builds resumed with another target set, and rebuilds after an edit that makes the "
-    "root plan run again; the executed commands are compared with "
+    "root plan run again; edit histories (breadth-first, restart builds) of projects in which a "
+    "sub-plan starts or stops consuming the end of a chain of optional steps while the plan that "
+    "declares the chain is skipped; the executed commands are compared with "
     "the need computed by an independent fixed-point model; non-trivial: at least one step was "
     "not needed, or a target elevated a step"
 )
@@ -65,7 +67,86 @@ def jobs(tier, seed):
     if batch:
         out_jobs.append({"graphs": batch, "n": n, "bound": 0 if tier == "quick" else 1})
     out_jobs.append({"invalid": True, "n": n, "bound": 0})
+    for fam in HIST_FAMILIES:
+        start = {"fam": fam, "knobs": {}}
+        for elabel, d in hist.knob_edits(start):
+            out_jobs.append({"hist": True, "start": start, "first": (elabel, d),
+                             "depth": 2 if tier == "quick" else 3})
     return out_jobs
+
+
+# histories in which the need of a step changes although the plan that declares it is skipped:
+# the consumers are steps of a sub-plan, of planning kind (f_planuse) or scripts (f_nested)
+HIST_FAMILIES = ["f_planuse", "f_nested", "f_optional"]
+
+
+def run_hist(spec):
+    """After every build of an edit history (restart builds, no targets): the stored need of
+    every step equals the fixed-point model, nothing outside the needed set is SUCCEEDED or has
+    an output on disk, every needed step SUCCEEDED and nothing unneeded was executed."""
+    acc = Acc()
+    fam = spec["start"]["fam"]
+    cfg = {"njob": 2}
+
+    def visit(labels, descs, obs_list, world):
+        last = obs_list[-1]
+        acc.evaluations += len(obs_list)
+        acc.transitions += sum(o.nev for o in obs_list)
+        acc.states.add(h8([last.raw, sorted(last.fs.items())]))
+        if len(obs_list) < len(descs) or last.rc_class != "success" or not last.ok():
+            return
+        needed = refmodel.required_steps(last, (), ())
+        model = refmodel.implied_need(last, (), ())
+        stale = {s: (last.db_steps[s]["implied"], v) for s, v in model.items()
+                 if last.db_steps[s]["implied"] != v}
+        problems = {}
+        if stale:
+            problems["stored_need_vs_model"] = stale
+        extra = sorted(set(last.started) - needed)
+        if extra:
+            problems["executed_not_needed"] = extra
+        notdone = sorted(s for s in needed if last.db_steps[s]["state"] != "SUCCEEDED")
+        if notdone:
+            problems["needed_not_succeeded"] = notdone
+        left = []
+        for s, st in last.db_steps.items():
+            if not st["detached"] and s not in needed:
+                if st["state"] == "SUCCEEDED":
+                    left.append(("succeeded", s))
+                left.extend(("output", p) for p in last.db_outputs.get(s, []) if p in last.fs)
+        if left:
+            problems["unneeded_optional_left"] = left
+        if needed != refmodel.attached_steps(last):
+            acc.nontrivial.add(h8([fam, labels]))
+        acc.outcomes.setdefault(h8([fam, sorted(needed), bool(problems)]), 1)
+        if problems:
+            def violates(cand):
+                w, ol = hist.run_history(cand, cfg)
+                w.destroy()
+                o = ol[-1]
+                if len(ol) < len(cand) or o.rc_class != "success" or not o.ok():
+                    return False
+                nd = refmodel.required_steps(o, (), ())
+                md = refmodel.implied_need(o, (), ())
+                return (any(o.db_steps[s]["implied"] != v for s, v in md.items())
+                        or bool(set(o.started) - nd)
+                        or any(o.db_steps[s]["state"] != "SUCCEEDED" for s in nd)
+                        or any(not st["detached"] and s not in nd and
+                               (st["state"] == "SUCCEEDED" or any(p in o.fs for p in o.db_outputs.get(s, [])))
+                               for s, st in o.db_steps.items()))
+
+            small = hist.shrink(descs, violates)
+            acc.violation(f"C11|hist|{fam}|{hist.history_label(small)}",
+                          {"family": fam, "edits": labels, "minimal_history": hist.history_label(small),
+                           **problems, "exec": describe(last, 30)},
+                          {"check": "C11", "descs": small, "labels": labels})
+        if len(acc.samples) < 2 and needed != refmodel.attached_steps(last):
+            acc.sample({"family": fam, "edits": labels, "needed": sorted(needed), "executed": last.started})
+
+    nrun, _nstates, _trunc = hist.bfs(spec["start"], spec["depth"], hist.knob_edits, visit, cfg,
+                                      first=spec["first"])
+    acc.count("histories", nrun)
+    return acc
 
 
 def build(files, targets, tdirs, prefix=(), world=None):
@@ -144,6 +225,8 @@ def check_fresh(acc, g, targets, tdirs, obs):
 
 
 def run_job(spec):
+    if spec.get("hist"):
+        return run_hist(spec)
     acc = Acc()
     n = spec["n"]
     if spec.get("invalid"):
